@@ -25,7 +25,18 @@ const (
 	pkRen = 3
 	pkOdd = 4
 	pkDeep = 5
+	pkClash = 6
 )
+
+// how the target file imports the package whose directory name differs from its package clause
+const (
+	oddPlain    = 0 // import "scratch/odd/v2"            (binds the declared name)
+	oddDirName  = 1 // import v2 "scratch/odd/v2"         (explicit name = last path element)
+	oddDeclName = 2 // import odd "scratch/odd/v2"        (explicit name = declared name)
+	oddOther    = 3 // import ox "scratch/odd/v2"         (explicit name = neither)
+)
+
+var oddStyleTag = [...]string{"dir-differs-plain", "dir-differs-named-as-dir", "dir-differs-named-as-pkg", "dir-differs-named-other"}
 
 func (g *gen) emit(f string, a ...any) { g.lines = append(g.lines, "gcm "+fmt.Sprintf(f, a...)) }
 func (g *gen) tag(t string)             { g.tags[t] = true }
@@ -61,7 +72,7 @@ func (g *gen) rty(depth int, pk []int) string {
 			}
 			return "n:0:" + n
 		default:
-			g.tag(map[int]string{pkSib: "plain-import", pkRen: "renamed-import", pkOdd: "dir-differs-import", pkDeep: "unimported-pkg"}[p])
+			g.tag(map[int]string{pkSib: "plain-import", pkRen: "renamed-import", pkOdd: "dir-differs-import", pkDeep: "unimported-pkg", pkClash: "name-clash-import"}[p])
 			n := g.pick([]string{"T", "Rec", "Al"})
 			if n == "Al" {
 				g.tag("alias")
@@ -212,7 +223,30 @@ func genProgram(r *rand.Rand, id int, domain bool) (lines []string, tags []strin
 	if r.Intn(2) == 0 {
 		oddPath, oddName = "scratch/dir_a", "pkgb"
 	}
-	if renAlias == oddName {
+	oddBase := oddPath[strings.LastIndex(oddPath, "/")+1:]
+	// the dir-differs package is imported plainly or under an explicit name that repeats the
+	// directory name (the classic `v2 "mod/pkg/v2"`), repeats the declared name, or is neither;
+	// the style cycles with the case number so that every quick run has each of them several times
+	oddStyle := id % 4
+	oddAlias := [...]string{"", oddBase, oddName, "ox"}[oddStyle]
+	oddBound := oddAlias // the identifier the import binds in the target file
+	if oddBound == "" {
+		oddBound = oddName
+	}
+	// name clash: a second, plainly imported package whose DECLARED name is the dir-differs
+	// package's directory name or its declared name - whichever the target file does not
+	// already bind for the dir-differs package (so the file stays legal Go)
+	clashName := ""
+	if r.Intn(3) != 0 {
+		var free []string
+		for _, n := range []string{oddBase, oddName} {
+			if n != oddBound {
+				free = append(free, n)
+			}
+		}
+		clashName = g.pick(free)
+	}
+	if renAlias == oddBound || renAlias == clashName {
 		renAlias = "rn"
 	}
 	g.emit("pkg 0 scratch/tgt tgt")
@@ -233,9 +267,26 @@ func genProgram(r *rand.Rand, id int, domain bool) (lines []string, tags []strin
 		g.avail = append(g.avail, pkRen)
 		g.emit("imp 3 %s", renAlias)
 	}
-	if r.Intn(4) != 0 {
+	hasOdd := oddStyle != oddPlain || r.Intn(4) != 0
+	if hasOdd {
 		g.avail = append(g.avail, pkOdd)
-		g.emit("imp 4 -")
+		if oddAlias == "" {
+			g.emit("imp 4 -")
+		} else {
+			g.emit("imp 4 %s", oddAlias)
+		}
+		g.tag(oddStyleTag[oddStyle])
+	}
+	hasClash := hasOdd && clashName != ""
+	if hasClash {
+		g.emit("pkg 6 scratch/cl/%s %s", clashName, clashName)
+		g.avail = append(g.avail, pkClash)
+		g.emit("imp 6 -")
+		if clashName == oddBase {
+			g.tag("clash-with-dir-name")
+		} else {
+			g.tag("clash-with-pkg-name")
+		}
 	}
 	// named types of every package
 	g.emit("def 0 ID named b:int")
@@ -247,6 +298,9 @@ func genProgram(r *rand.Rand, id int, domain bool) (lines []string, tags []strin
 	others := []int{pkSib, pkRen, pkOdd}
 	if g.drift == "unimported-pkg" {
 		others = append(others, pkDeep)
+	}
+	if hasClash {
+		others = append(others, pkClash)
 	}
 	for _, q := range others {
 		g.emit("def %d T named b:int", q)
@@ -272,7 +326,7 @@ func genProgram(r *rand.Rand, id int, domain bool) (lines []string, tags []strin
 		e := embTy{name: name}
 		pkChoices := []int{pkTgt, pkTgt}
 		for _, p := range g.avail {
-			if p == pkRen || p == pkOdd {
+			if p == pkRen || p == pkOdd || p == pkClash {
 				pkChoices = append(pkChoices, p)
 			}
 		}
@@ -375,6 +429,18 @@ func genProgram(r *rand.Rand, id int, domain bool) (lines []string, tags []strin
 		nm := 1 + r.Intn(8)
 		for _, m := range pool[:nm] {
 			g.emit("meth 0 %s %s %s %s", name, m, g.pick([]string{"p", "v"}), g.rsig(2, g.avail, true))
+		}
+		// the first struct always mentions a type of the dir-differs package (and of the
+		// clashing one) in a method of its own, so that both imports are active and printed
+		if s == 0 && hasOdd {
+			sig := fmt.Sprintf("f:1:0:1 %s %s - %s", g.pick([]string{"-", "_", "v"}),
+				g.pick([]string{"n:4:T", "p n:4:Rec", "s n:4:Al", "g:4:Box:1 b:int"}), g.pick([]string{"n:4:T", "b:error"}))
+			if hasClash {
+				sig = fmt.Sprintf("f:2:0:1 - %s - %s - %s", g.pick([]string{"n:4:T", "p n:4:Rec", "g:4:Box:1 n:6:T"}),
+					g.pick([]string{"n:6:T", "s n:6:Rec", "m b:string n:6:Al"}), g.pick([]string{"n:4:Al", "n:6:T", "b:error"}))
+			}
+			g.emit("meth 0 %s ViaOdd %s %s", name, g.pick([]string{"p", "v"}), sig)
+			g.tag("dir-differs-import")
 		}
 	}
 	for _, t := range targets {
